@@ -30,8 +30,8 @@ impl Codec for Dna {
     }
 
     /// TODO: fast translation of A, T, W to 0 and C, G, S to 1
-    fn unsafe_from_ascii(_b: u8) -> Self {
-        todo!()
+    fn unsafe_from_ascii(c: u8) -> Self {
+        Self::try_from_ascii(c).expect("Unrecognised character")
     }
 
     fn try_from_ascii(c: u8) -> Option<Self> {
